@@ -153,6 +153,10 @@ func (k *checker) persist2On(fn *ssa.Function, name string) {
 	sP := fi.prov(S)
 	recv := fn.Params[0].Name()
 	nodesP := sP + ".Nodes"
+	roles, okRoles := k.instRoles()
+	if !okRoles {
+		return
+	}
 
 	mapItersOver := func(coll string) []*iter {
 		var out []*iter
@@ -217,7 +221,7 @@ func (k *checker) persist2On(fn *ssa.Function, name string) {
 			for b := range foundIt.loop.Blocks {
 				for _, in := range b.Instrs {
 					mu, ok := in.(*ssa.MapUpdate)
-					if ok && fi.prov(mu.Map) == recv+".nodeIDs" {
+					if ok && fi.prov(mu.Map) == recv+"."+roles.ids {
 						reg = mu
 					}
 				}
@@ -312,7 +316,7 @@ func (k *checker) persist2On(fn *ssa.Function, name string) {
 		prodP := sP + ".Producers"
 		var mus []*ssa.MapUpdate
 		ssau.AllInstrs(fn, func(in ssa.Instruction) {
-			if mu, ok := in.(*ssa.MapUpdate); ok && fi.prov(mu.Map) == recv+".producers" {
+			if mu, ok := in.(*ssa.MapUpdate); ok && fi.prov(mu.Map) == recv+"."+roles.producers {
 				mus = append(mus, mu)
 			}
 		})
